@@ -50,6 +50,7 @@ def res(t): return ("res", t)
 
 
 def lean_ty(t):
+    if t == ("gen",): raise Untranslatable("a generator is not a value")
     if t == NAT: return "Nat"
     if t == BOOL: return "Bool"
     if t == UNIT: return "Unit"
@@ -127,6 +128,7 @@ FUNCS = [
     Fn("dealloc", "bump", "st", group="Realloc", anchor="unsafe fn is_last_allocation"),
     Fn("shrink", "bump", "st", group="Realloc", anchor="unsafe fn is_last_allocation"),
     Fn("grow", "bump", "st", group="Realloc", anchor="unsafe fn is_last_allocation"),
+    Fn("alloc_layout_slow", "bump", "st", group="Slow"),
     Fn("alloc_try_with", "bump", "st", group="Rewind", lean="alloc_try_with_rewind", region="err_arm",
        free=[("rewind_footer", "NonNull<ChunkFooter>"), ("rewind_ptr", "NonNull<u8>"), ("inner_result_ptr", "NonNull<u8>")]),
     Fn("try_alloc_try_with", "bump", "st", group="Rewind", lean="try_alloc_try_with_rewind", region="err_arm",
@@ -217,6 +219,11 @@ class Tr:
         self.version = 0
         self.next_version = 1
         self.chunk_ver = {}
+        self.gens = {}          # lean name of a `iter::from_fn(|| …)` local -> the closure body
+        self.no_join = 0        # inside a loop body continuations are duplicated instead of lifted (a lifted join function
+                                # that calls the loop again would need mutual recursion on the fuel)
+        self.in_closure = 0     # inside a translated closure body `return` / `?` would leave the closure, not the function
+        self.ret_override = None
         # the threaded state: the arena model's `s : St`, or for RawVec methods the vector `v : V.VS`
         if fn.kind == "rawvec":
             self.sv, self.sty, self.bindS, self.pureS = "v", "V.VS", "RsV.bindV", "RsV.pureV"
@@ -297,7 +304,7 @@ class Tr:
         """returns (prefix, k') where k' calls a join function when the continuation would be duplicated.
         Join functions are lambda-lifted: emitted as top-level definitions `f.k_n` that take every binder in
         scope as a parameter (so theorems can be stated about them)."""
-        if k.trivial or nbranches <= 1:
+        if k.trivial or nbranches <= 1 or self.no_join:
             return "", k
         self.nj += 1
         name = f"{self.fn.lean}.k_{self.nj}"
@@ -619,6 +626,8 @@ class Tr:
                     return k(f"{paren(t)}.footer", NAT, env_)
                 return k(t, ty, env_)
             return self.E(e[1], env, K(kc, k.trivial))
+        if kind in ("try", "return") and self.in_closure:
+            raise Untranslatable("`?` / `return` inside a closure")
         if kind == "try":
             def kt(t, ty, env_):
                 if isinstance(ty, tuple) and ty[0] == "res2":
@@ -823,7 +832,17 @@ class Tr:
         if name in ("panic", "unreachable", "unimplemented", "todo"):
             return self.panic()
         if name == "matches":
-            raise Untranslatable("matches! with an impure scrutinee or guard")
+            scrut, pat, guard = args
+
+            def ksm(t, ty, env_):
+                env2, lp = self.pattern(pat, ty, env_)
+                pre, kj = self.join(k, BOOL, env_, [], 2)
+                kb = K(lambda tg, tyg, eg: kj(tg, BOOL, eg.restrict_to(env_)), True)
+                ver = self.version
+                hit = self.E(guard, env2, kb) if guard is not None else kj("true", BOOL, env_)
+                self.version = ver
+                return f"({pre}match {t} with\n| {lp} =>\n{hit}\n| _ => {kj('false', BOOL, env_)})"
+            return self.E(scrut, env, K(ksm))
         raise Untranslatable(f"macro {name}!")
 
     def CALL(self, e, env, k):
@@ -856,7 +875,7 @@ class Tr:
                 # writing a whole `ChunkFooter` value to an address: from here on that address *is* this footer
                 return self.check(f"{paren(pa[1][0])}.footer = {pa[0][0]}", "footer written at an address that is not the end of its chunk",
                                   k(pa[1][0], CHUNK, env_))
-            g = FN_BY_KIND.get(("free", n)) if len(segs) == 1 else (FN_BY_KIND.get(("assoc", n)) if segs[0] == "Self" else None)
+            g = FN_BY_KIND.get(("free", n)) if len(segs) == 1 else ((FN_BY_KIND.get(("assoc", n)) or FN_BY_KIND.get(("assocst", n))) if segs[0] == "Self" else None)
             if g is not None:
                 return self.call_fn(g, None, pa, env_, k)
             raise Untranslatable(f"call of {'::'.join(segs)}")
@@ -898,8 +917,81 @@ class Tr:
         self.bump_version()
         return f"({self.bindS} ({call} {self.sv}) fun {self.sv} {v} =>\n{k(v, ty, env2)})"
 
+    def LOOP(self, gen_ln, closure_b, env, k):
+        """`iter::from_fn(A).filter_map(B).next()`: call A until it yields `None` (→ `None`) or B accepts what it yielded
+        (→ `Some`).  A is an `FnMut` closure: the captured `let mut` locals it assigns are the loop state.  Emitted as a
+        lambda-lifted function recursive on a fuel argument (65 halvings take any `usize` to 0; the bound is 70 as in the
+        hand model and exhausting it is `bad`)."""
+        body_a = self.gens[gen_ln]
+        if closure_b[0] != "closure" or len(closure_b[1]) != 1:
+            raise Untranslatable("filter_map argument")
+        muts = [m for m in sorted(assigned(body_a)) if m in env.d]
+        if assigned(closure_b[2]) & set(env.d):
+            raise Untranslatable("filter_map closure assigns a captured local")
+        self.nj += 1
+        name = f"{self.fn.lean}.loop_{self.nj}"
+        envl = env.copy()
+        old_mut_names = [env.d[m][0] for m in muts]
+        envl.scope = [(ln, t) for ln, t in envl.scope if ln not in old_mut_names]
+        captured = [(ln, t) for ln, t in env.scope if lean_ty_ok(t) and ln not in old_mut_names]
+        params = [f"({ln} : {lean_ty(t)})" for ln, t in captured]
+        envl, fuel = envl.bind("fuel", NAT)
+        envl, fuel1 = envl.bind("fuel", NAT)
+        mut_params = []
+        for m in muts:
+            mty = env.d[m][1]
+            envl, ln = envl.bind(m, mty)
+            mut_params.append(f"({ln} : {lean_ty(mty)})")
+        # item types by dry runs
+        ty_a = self.value_type(body_a, envl)
+        if not (isinstance(ty_a, tuple) and ty_a[0] == "opt"):
+            raise Untranslatable(f"from_fn closure yields {ty_a}")
+        envb0, bp = self.pattern(closure_b[1][0], ty_a[1], envl)
+        ty_b = self.value_type(closure_b[2], envb0)
+        if not (isinstance(ty_b, tuple) and ty_b[0] == "opt"):
+            raise Untranslatable(f"filter_map closure yields {ty_b}")
+        saved_ret, saved_version = self.ret, self.version
+        self.ret = ty_b
+        self.in_closure += 1
+        self.no_join += 1
+        self.bump_version()
+        lead_args = " ".join(self.lead_names)
+        cap_args = " ".join(ln for ln, _ in captured)
+
+        def again(e):
+            return f"(Gen.Fn.{name} {lead_args} {cap_args} {fuel1} {' '.join(e.d[m][0] for m in muts)} {self.sv})"
+
+        def ka(ta, tya, ea):
+            envb, lp = self.pattern(closure_b[1][0], ty_a[1], ea)
+
+            def kb(tb, tyb, eb):
+                eb2, y = eb.bind("y", ty_b[1])
+                return f"(match {tb} with\n| some {y} => {self.RET(f'(some {y})', ty_b, eb2)}\n| none => {again(eb)})"
+            inner = self.E(closure_b[2], envb, K(kb))
+            return f"(match {ta} with\n| none => {self.RET('none', ty_b, ea)}\n| some {lp} =>\n{inner})"
+        body = self.E(body_a, envl, K(ka))
+        loop_ret = self.ret_lean_ty()
+        self.ret, self.version = saved_ret, saved_version
+        self.in_closure -= 1
+        self.no_join -= 1
+        self.lifted.append(
+            f"def {name} {' '.join(self.lead)} {' '.join(params)} ({fuel} : Nat) {' '.join(mut_params)} ({self.sv} : {self.sty}) : {loop_ret} :=\n"
+            + indent(f"(match {fuel} with\n| 0 => {self.bad('candidate loop does not terminate')}\n| {fuel1} + 1 =>\n{body})") + "\n")
+        call = f"Gen.Fn.{name} {lead_args} {cap_args} 70 {' '.join(env.d[m][0] for m in muts)}"
+        # the loop state is consumed: the locals it mutated are not visible afterwards
+        env2 = env.copy()
+        for m in muts:
+            del env2.d[m]
+        return self.bind_call(call, "st", k, env2, ty_b)
+
     def MCALL(self, e, env, k):
         recv, name, args = e[1], e[2], e[3]
+        if name == "next" and not args and recv[0] == "mcall" and recv[2] == "filter_map" and len(recv[3]) == 1 \
+                and recv[1][0] == "path" and len(recv[1][1]) == 1 and recv[1][1][0] in env.d \
+                and env.d[recv[1][1][0]][1] == ("gen",):
+            if not self.st:
+                raise Untranslatable("generator loop in a function translated without state")
+            return self.LOOP(env.d[recv[1][1][0]][0], recv[3][0], env, k)
         if recv == ("path", ["self"]) and self.fn.kind == "rawvec":
             if ("rawvec", name) in FN_BY_KIND:
                 return self.args(args, env, lambda pa, env_: self.call_fn(FN_BY_KIND[("rawvec", name)], None, pa, env_, k))
@@ -908,11 +1000,13 @@ class Tr:
                 return self.args(args, env, lambda pa, env_: self.bind_call(f"{lf} c {sp(pa)}", mode, k, env_, rty))
         # methods on self (the arena)
         if recv == ("path", ["self"]) and self.fn.kind == "bump":
-            if ("bump", name) in FN_BY_KIND:
-                return self.args(args, env, lambda pa, env_: self.call_fn(FN_BY_KIND[("bump", name)], None, pa, env_, k))
             if name in EXTERNAL:
+                # callers keep reaching the hand model of this function (its own translation is tied to the hand model
+                # by a separate equivalence theorem)
                 lf, mode, rty = EXTERNAL[name]
                 return self.args(args, env, lambda pa, env_: self.bind_call(f"{lf} E M {sp(pa)}", mode, k, env_, rty))
+            if ("bump", name) in FN_BY_KIND:
+                return self.args(args, env, lambda pa, env_: self.call_fn(FN_BY_KIND[("bump", name)], None, pa, env_, k))
         # Option/Result combinators taking closures or diverging functions
         if name in ("map", "unwrap_or_else", "and_then", "ok_or_else", "filter"):
             def kr(t, ty, env_):
@@ -997,6 +1091,12 @@ class Tr:
                 pat, init = st[1], st[2]
                 if init is None:
                     raise Untranslatable("let without initialiser")
+                if pat[0] == "pid" and init[0] == "call" and init[1] == ("path", ["iter", "from_fn"]) and len(init[2]) == 1 \
+                        and init[2][0][0] == "closure" and not init[2][0][1]:
+                    # a lazy generator: nothing happens until `.next()` is called on it (see LOOP)
+                    e3, ln = env_.bind(pat[1], ("gen",))
+                    self.gens[ln] = init[2][0][2]
+                    return go(i + 1, e3)
 
                 def kl(t, ty, e2):
                     if pat[0] == "pid":
@@ -1218,7 +1318,7 @@ def translate_all(repo):
 
 
 GROUP_IMPORTS = {"Arith": [], "Details": ["Arith"], "Limit": ["Arith"], "Footer": ["Arith"], "Fast": ["Arith", "Footer"],
-                 "Realloc": ["Arith", "Fast", "Footer", "Limit"], "RawVec": [], "Reset": ["Arith", "Footer"], "Rewind": ["Arith", "Footer", "Limit", "Fast", "Realloc"], "NewChunk": ["Arith"]}
+                 "Realloc": ["Arith", "Fast", "Footer", "Limit"], "RawVec": [], "Reset": ["Arith", "Footer"], "Rewind": ["Arith", "Footer", "Limit", "Fast", "Realloc"], "NewChunk": ["Arith"], "Slow": ["Arith", "Details", "Limit", "Footer", "Fast", "NewChunk"]}
 GROUP_PRELUDE = {"RawVec": "BumpVerif.Model.RsVec"}
 
 
